@@ -249,7 +249,10 @@ def self_test() -> list[str]:
         if open_asdu(key, f["scf"], bytes(bad), f["sa"], f["da"], f["at"], f["eff"], f["tpci_octet"]) is not None:  # type: ignore[arg-type]
             fails.append(f"{name}: verifies with a flipped MAC bit")
     # builder reproduces both complete frames octet for octet
-    built = secure_ldata(AN158_KEY, AN158_PLAIN, scf=0x90, seq=4, sa=0xFF67, da=0xFF00, group=False, ctrl1=0xB0, hop_count=6)
+    # (the Annex A example keeps the standard Frame Type bit on a long frame: copy Ctrl1 as printed)
+    built = secure_ldata(
+        AN158_KEY, AN158_PLAIN, scf=0x90, seq=4, sa=0xFF67, da=0xFF00, group=False, ctrl1=0xB0, hop_count=6, set_frame_type=False
+    )
     if built != AN158_FRAME:
         fails.append("AN158-annexA: frame builder differs")
     built = secure_ldata(ETS_KEY, ETS_PLAIN, scf=0x10, seq=155806854986, sa=0x4009, da=0x0400, group=True, ctrl1=0x3C, hop_count=6)
